@@ -93,6 +93,69 @@ pub fn values_by_size(max: usize) -> Vec<Vec<Dyn>> {
 
 pub struct C13;
 
+fn is_nullish(v: &Dyn) -> bool {
+    match v {
+        Dyn::Unit | Dyn::None | Dyn::UnitStruct(_) => true,
+        Dyn::NewtypeStruct(_, x) => is_nullish(x), // newtype structs are transparent
+        _ => false,
+    }
+}
+fn is_empty_coll(v: &Dyn) -> bool {
+    match v {
+        Dyn::Seq(x) => x.is_empty(),
+        Dyn::Map(x) => x.is_empty(),
+        Dyn::NewtypeStruct(_, x) => is_empty_coll(x),
+        _ => false,
+    }
+}
+fn contains(v: &Dyn, f: &dyn Fn(&Dyn) -> bool) -> bool {
+    if f(v) {
+        return true;
+    }
+    match v {
+        Dyn::Some(x) | Dyn::NewtypeStruct(_, x) => contains(x, f),
+        Dyn::Seq(v) | Dyn::Tuple(v) | Dyn::TupleStruct(_, v) => v.iter().any(|x| contains(x, f)),
+        Dyn::Map(v) => v.iter().any(|(k, x)| contains(k, f) || contains(x, f)),
+        Dyn::Struct(_, v) => v.iter().any(|(_, x)| contains(x, f)),
+        Dyn::Variant { val, .. } => match val {
+            VarVal::Unit => false,
+            VarVal::Newtype(x) => contains(x, f),
+            VarVal::Tuple(v) => v.iter().any(|x| contains(x, f)),
+            VarVal::Struct(v) => v.iter().any(|(_, x)| contains(x, f)),
+        },
+        _ => false,
+    }
+}
+
+/// Values the YAML data model cannot tell apart from another value of the same type, whatever the emitter does:
+/// `Some(null-like)` vs `None`; and, when `empty_as_braces` is off (empty collections are written as nothing, the
+/// documented behaviour of that option), an empty collection at the root, inside `Some`, or inside a mapping key.
+pub fn representable(v: &Dyn, o: &SerOpts) -> bool {
+    if contains(v, &|x| matches!(x, Dyn::Some(i) if is_nullish(i))) {
+        return false;
+    }
+    // mapping keys: `{}` read into an Option key is None by design (the "explicit empty key" idiom), and a one-entry
+    // mapping key whose own key is null-like (`{~: v}`) is that idiom too (DESIGN.md §6b: unspecified)
+    let key_idiom = |k: &Dyn| -> bool {
+        contains(k, &|x| matches!(x, Dyn::Some(i) if is_empty_coll(i))) || contains(k, &|x| matches!(x, Dyn::Map(es) if es.len() == 1 && is_nullish(&es[0].0)))
+    };
+    if contains(v, &|x| matches!(x, Dyn::Map(es) if es.iter().any(|(k, _)| key_idiom(k)))) {
+        return false;
+    }
+    if o.no_empty_braces {
+        if is_empty_coll(v) {
+            return false;
+        }
+        if contains(v, &|x| matches!(x, Dyn::Some(i) if contains(i, &is_empty_coll))) {
+            return false;
+        }
+        if contains(v, &|x| matches!(x, Dyn::Map(es) if es.iter().any(|(k, _)| contains(k, &is_empty_coll)))) {
+            return false;
+        }
+    }
+    true
+}
+
 pub fn has_nested_container(v: &Dyn) -> bool {
     fn is_container(v: &Dyn) -> bool {
         v.count() > 1 || matches!(v, Dyn::Seq(_) | Dyn::Map(_))
@@ -145,6 +208,10 @@ impl Prop for C13 {
     type Case = Case;
     fn check(&self, c: &Case) -> Verdict {
         let mut v = Verdict::default();
+        if !representable(&c.val, &c.opts) {
+            v.rejected = true;
+            return v;
+        }
         v.execs = 2;
         v.compared = 1;
         v.nontrivial = has_nested_container(&c.val);
